@@ -71,8 +71,8 @@ deriving DecidableEq, Repr
 
 def Emit.internal (e : Emit) : Bool := e.f.internal || e.asInternal
 
-/-- CppCheckLogger: mExitCode, mErrorList, mSuppressedErrorList (9e24c55: suppressed findings have a duplicate filter of
-    their own) and what was forwarded to mErrorLogger (oldest first) -/
+/-- CppCheckLogger: mExitCode, mErrorList, mSuppressedErrorList (9e24c55, 9907ad7: findings suppressed here or later by the executor have a
+    duplicate filter of their own; both filters are per file, 8f62378) and what was forwarded to mErrorLogger (oldest first) -/
 structure LState where
   exit : Bool
   seen : List Nat
@@ -95,12 +95,16 @@ def loggerStep (o : Opts) (useGlobal : Bool) (s : LState) (f : Finding) : LState
         { s with exit := true, out := s.out ++ [⟨f, expl1⟩] }
       else s
     if f.emptyText then s1
-    -- `if (!emitDuplicates && !(suppressed ? mSuppressedErrorList : mErrorList).emplace(errmsg).second) return;`
-    else if !o.emitDuplicates && (if nomsg1 then s1.seenSup else s1.seen).contains f.key then s1
+    -- `suppressedLater = !suppressed && !mUseGlobalSuppressions && nomsg.isSuppressed(errorMessage)` (9907ad7): a finding the
+    -- executor will drop in `hasToLog` uses the duplicate filter of the suppressed findings
+    -- `if (!emitDuplicates && !((suppressed || suppressedLater) ? mSuppressedErrorList : mErrorList).emplace(errmsg).second) return;`
+    else
+    let sup2 := nomsg1 || (!useGlobal && f.nomsgGlobal)
+    if !o.emitDuplicates && (if sup2 then s1.seenSup else s1.seen).contains f.key then s1
     else
       let s2 : LState :=
         if o.emitDuplicates then s1
-        else if nomsg1 then { s1 with seenSup := f.key :: s1.seenSup } else { s1 with seen := f.key :: s1.seen }
+        else if sup2 then { s1 with seenSup := f.key :: s1.seenSup } else { s1 with seen := f.key :: s1.seen }
       if nomsg1 then s2
       else
         -- `if (!nofail.isSuppressed(errorMessage) && !nomsg.isSuppressed(errorMessage)) mExitCode = 1;`
